@@ -2,7 +2,10 @@ package symex
 
 import (
 	"fmt"
+	"go/token"
 	"go/types"
+	"path/filepath"
+	"strings"
 
 	"bhsverif/smt"
 	"bhsverif/sqlm"
@@ -17,7 +20,67 @@ type rowsHandle struct {
 	pos  int
 }
 
-type csvWriter struct{ records [][]value }
+type csvWriter struct {
+	records [][]value
+	file    *fileObj
+}
+
+// fileObj: a file of the modelled file system. Its content is a list of CSV records (what the
+// export writes and the import reads); gzip is the identity on it.
+type fileObj struct{ records [][]value }
+
+const modelCwd = "/vhdb-model/cwd"
+
+// fsKey normalises a path: concrete relative paths are taken relative to the model's working
+// directory; a symbolic path (e.g. one that embeds the clock) is identified by its term.
+func (in *Interp) fsKey(v value) interface{} {
+	if t, ok := v.(*smt.Term); ok {
+		if s, ok := in.C.GoString(t); ok {
+			v = s
+		} else {
+			return t
+		}
+	}
+	if b, ok := v.(bstr); ok {
+		if s, ok := in.bstrConcrete(b); ok {
+			v = s
+		}
+	}
+	s, ok := v.(string)
+	if !ok {
+		panic(unsupported{"file path of an unsupported form"})
+	}
+	if !strings.HasPrefix(s, "/") {
+		s = modelCwd + "/" + s
+	}
+	return filepath.Clean(s)
+}
+
+func (in *Interp) fs() map[interface{}]*fileObj {
+	m, _ := in.extra["fs"].(map[interface{}]*fileObj)
+	if m == nil {
+		m = map[interface{}]*fileObj{}
+		in.extra["fs"] = m
+	}
+	return m
+}
+
+func fileValue(f *fileObj) value {
+	var cell value = &opaque{kind: "os.File", data: f}
+	return &cell
+}
+
+func fileOfValue(v value) *fileObj {
+	p, ok := v.(*value)
+	if !ok || p == nil {
+		panic(targetPanic{msg: "runtime error: invalid memory address or nil pointer dereference (nil *os.File)"})
+	}
+	o, ok := (*p).(*opaque)
+	if !ok || o.kind != "os.File" {
+		panic(unsupported{"*os.File that is not a model file"})
+	}
+	return o.data.(*fileObj)
+}
 type csvReader struct {
 	records [][]value
 	pos     int
@@ -127,13 +190,104 @@ func (P *Program) registerCSV() {
 	}
 	// ---- encoding/csv as record lists
 	P.reg("encoding/csv.NewWriter", func(fr *frame, args []value) value {
-		var cell value = &opaque{kind: "csv.Writer", data: &csvWriter{}}
+		w := &csvWriter{}
+		if len(args) > 0 {
+			if dst, ok := args[0].(iface); ok && dst.t != nil {
+				if p, ok := dst.v.(*value); ok && p != nil {
+					if o, ok := (*p).(*opaque); ok && o.kind == "os.File" {
+						w.file = o.data.(*fileObj)
+					}
+				}
+			}
+		}
+		var cell value = &opaque{kind: "csv.Writer", data: w}
 		return &cell
 	})
 	P.reg("(*encoding/csv.Writer).Write", func(fr *frame, args []value) value {
 		w := (*args[0].(*value)).(*opaque).data.(*csvWriter)
-		w.records = append(w.records, append([]value{}, args[1].(sliceVal)...))
+		rec := append([]value{}, args[1].(sliceVal)...)
+		w.records = append(w.records, rec)
+		if w.file != nil {
+			w.file.records = append(w.file.records, rec)
+		}
 		return iface{}
+	})
+	// ---- a small file system: path -> record list
+	P.reg("os.TempDir", func(fr *frame, args []value) value { return "/vhdb-model/tmp" })
+	P.reg("os.Getwd", func(fr *frame, args []value) value { return tuple{modelCwd, iface{}} })
+	P.reg("os.Create", func(fr *frame, args []value) value {
+		in := fr.in
+		f := &fileObj{}
+		in.fs()[in.fsKey(args[0])] = f
+		in.path.noteAssumption("files are record lists in a model file system (os.Create/Open/Remove, csv, gzip = identity)")
+		return tuple{fileValue(f), iface{}}
+	})
+	P.reg("os.Open", func(fr *frame, args []value) value {
+		in := fr.in
+		if f, ok := in.fs()[in.fsKey(args[0])]; ok {
+			return tuple{fileValue(f), iface{}}
+		}
+		var nilFile *value
+		return tuple{nilFile, in.mkError("open: no such file or directory")}
+	})
+	P.reg("os.Remove", func(fr *frame, args []value) value {
+		in := fr.in
+		k := in.fsKey(args[0])
+		if _, ok := in.fs()[k]; !ok {
+			return in.mkError("remove: no such file or directory")
+		}
+		delete(in.fs(), k)
+		return iface{}
+	})
+	DBP := RepoModule + "/database"
+	P.reg(DBP+".fileExistsAndIsReadable", func(fr *frame, args []value) value {
+		_, ok := fr.in.fs()[fr.in.fsKey(args[0])]
+		return fr.in.boolv(ok)
+	})
+	copyFile := func(fr *frame, args []value) value {
+		src, dst := fileOfValue(args[0]), fileOfValue(args[1])
+		dst.records = append([][]value{}, src.records...)
+		return iface{}
+	}
+	for _, n := range []string{"gzipFastCompress", "gzipCompress", "gzipDecompress", "gzipDecompressWithBuffer"} {
+		P.reg(DBP+"."+n, copyFile)
+	}
+	P.reg("path/filepath.Clean", func(fr *frame, args []value) value {
+		if s, ok := args[0].(string); ok {
+			return filepath.Clean(s)
+		}
+		return args[0]
+	})
+	P.reg("path/filepath.Join", func(fr *frame, args []value) value {
+		in := fr.in
+		parts := args[0].(sliceVal)
+		all := true
+		var ss []string
+		for _, p := range parts {
+			if s, ok := p.(string); ok {
+				ss = append(ss, s)
+			} else if t, ok := p.(*smt.Term); ok {
+				if s, ok := in.C.GoString(t); ok {
+					ss = append(ss, s)
+				} else {
+					all = false
+				}
+			} else {
+				all = false
+			}
+		}
+		if all {
+			return filepath.Join(ss...)
+		}
+		// a symbolic element: plain concatenation with separators (elements are clean names)
+		var out value = ""
+		for i, p := range parts {
+			if i > 0 {
+				out = in.strBinop(token.ADD, out, "/")
+			}
+			out = in.strBinop(token.ADD, out, p)
+		}
+		return out
 	})
 	P.reg("(*encoding/csv.Writer).Flush", func(fr *frame, args []value) value { return nil })
 	P.reg("(*encoding/csv.Writer).Error", func(fr *frame, args []value) value { return iface{} })
@@ -171,8 +325,7 @@ func (P *Program) registerCSV() {
 		for _, r := range args[0].(sliceVal) {
 			recs = append(recs, append([]value{}, r.(sliceVal)...))
 		}
-		var cell value = &opaque{kind: "os.File", data: recs}
-		return &cell
+		return fileValue(&fileObj{records: recs})
 	})
 	P.reg("(*os.File).Seek", func(fr *frame, args []value) value { return tuple{fr.in.intv(0), iface{}} })
 	P.reg("(*os.File).Close", func(fr *frame, args []value) value { return iface{} })
@@ -180,7 +333,7 @@ func (P *Program) registerCSV() {
 		src := args[0].(iface)
 		if p, ok := src.v.(*value); ok && p != nil {
 			if o, ok := (*p).(*opaque); ok && o.kind == "os.File" {
-				var cell value = &opaque{kind: "csv.Reader", data: &csvReader{records: o.data.([][]value)}}
+				var cell value = &opaque{kind: "csv.Reader", data: &csvReader{records: o.data.(*fileObj).records}}
 				return &cell
 			}
 		}
